@@ -267,6 +267,10 @@ def enabled(ms, universe, allow_cycles=False):
                     term = None
                 if term is not None and not allow_cycles and not ms.p_acyclic_with(L, term):
                     continue
+        elif k == "callfun":
+            # inputs of a generated function: locations without an expression that no function / knob task writes
+            if any(("E", L) in ms.tasks or any(T.overlap(L, w) for w in fk) for L in op[1]):
+                continue
         elif k == "unreg":
             if ("E", op[1]) not in ms.tasks:
                 continue
@@ -556,6 +560,11 @@ def judge(w, ms_pre, op, ns, ex, exc):
     obs = w.contents()
     if T.same(obs, ns.vals["s"]):
         return Verdict("ok")
+    if op[0] == "callfun":
+        # several inputs written at once: the static criterion decides whether the recorded finding leaves the order open
+        if order_underdetermined(ns, ex.trigger):
+            return Verdict("known", "sibling-cycle", {"static": True})
+        return Verdict("violation", "contents differ from the reference model")
     if ex.assigned is not None:
         hit, detail = classify_sibling_cycle(ms_pre, op, ns, ex, w.trace.events, obs)
         if hit:
